@@ -82,7 +82,9 @@ def check(ctx):
             return {'confirmed': bad, 'key': 'history-overflow', 'path': path, 'text': '%s with history counter %s | ASan build, 820-ply game: %s' % ('; '.join(d for _, d in r.failed[:2]), ce.get('ce_aux'), 'sanitizer report' if bad else 'clean')}
         if r.q.name.startswith('h_pins'):
             import subprocess
-            exe = ctx.native_bin('pins_replay', [os.path.join(VERIF, 'native', 'pins_replay.cpp'), '-fsanitize=address', '-fno-omit-frame-pointer', '-g'], [])
+            import glob
+            eng = [f for f in sorted(glob.glob(os.path.join(os.environ.get('VERIF_REPO', '/repo'), 'engine', '*.cpp'))) if not f.endswith('/main.cpp')]
+            exe = ctx.native_bin('pins_replay', [os.path.join(VERIF, 'native', 'pins_replay.cpp'), '-fsanitize=address', '-fno-omit-frame-pointer', '-g'] + eng, [])
             out = ctx.sh([exe], ok=tuple(range(0, 256)) + (-6, -11))
             bad = 'AddressSanitizer' in out
             path = report.save_replay(ctx, r.q.name, {'harness': r.q.name, 'model': ce, 'sanitizer_output': [l for l in out.split('\n') if 'Sanitizer' in l or 'overflow' in l or 'PINS' in l][:8]})
